@@ -98,6 +98,10 @@ def step (s : St) (ws : List String) : St × String :=
     match id.toNat? >>= s.block?, s.vw with
     | some b, some v => ({ s with vw := some (accept v b) }, "ok")
     | _, _ => (s, "bad-op")
+  | ["execute", id] =>
+    match id.toNat? >>= s.block?, s.vw with
+    | some b, some v => (s, executeVerdict s.index s.W v s.fuel b)
+    | _, _ => (s, "bad-op")
   | ["verify", id] =>
     match id.toNat? >>= s.block?, s.vw with
     | some b, some v => (s, (verifyERP s.index s.W v s.fuel b).str)
